@@ -5,20 +5,26 @@ from vlib import *
 import docgen
 from props.tv_common import *
 from props.parse_common import corpus_files, regression_files
+from props import c13typed
 
 DOC_ROUTES = ["ts", "td", "es", "sl", "dm", "im", "ed", "vv", "tv", "pt", "pv"]
 TEXT_ROUTES = ["ts", "td", "es", "sl", "dm", "im", "ed"]          # parse with toml_edit, decode from its tree
 VALUE_ROUTES = ["vv", "tv", "pt", "pv"]                            # via toml::Value / toml::Table and try_into
 SVAL_ROUTES = ["ev", "tvd", "evv", "wd", "we", "wv"]
+TYPED_ROUTES = ["td", "ed", "dm", "im", "vv", "tv"]               # `typed`: a document into a type of the grammar (TySeed)
+TYPED_EDIT = ["td", "ed", "dm", "im"]
+TYPEDV_ROUTES = ["ev", "tvd", "evv", "wv"]                         # `typedv`: a single value
+TYPEDV_EDIT = ["ev", "tvd", "evv"]
 ROUTE_NAMES = {
     "ts": "toml::from_str", "td": "T::deserialize(toml::de::Deserializer::new)", "es": "toml_edit::de::from_str",
     "sl": "toml_edit::de::from_slice", "dm": "toml_edit::de::from_document(DocumentMut)", "im": "toml_edit::de::from_document(ImDocument)",
     "ed": "T::deserialize(str::parse::<toml_edit::de::Deserializer>)", "vv": "toml::from_str::<Value>().try_into()",
     "tv": "toml::from_str::<Table>().try_into()", "pt": "str::parse::<Table>().try_into()", "pv": "str::parse::<Value>().try_into()",
     "ev": "str::parse::<toml_edit::de::ValueDeserializer>", "tvd": "toml::de::ValueDeserializer::new", "evv": "toml_edit::Value::into_deserializer",
+    "dm": "toml_edit::de::Deserializer::from(DocumentMut)", "im": "toml_edit::de::Deserializer::from(ImDocument)",
     "wd": "toml::from_str of `x = <text>`", "we": "toml_edit::de::from_str of `x = <text>`", "wv": "toml::Table of `x = <text>`, entry x, try_into",
 }
-TYPES = ["config", "plain", "dates", "ints", "s", "owner"]
+TYPES = ["config", "plain", "dates", "ints", "roote", "s", "owner"]
 DT_HEX = "1979-05-27T07:32:00Z".encode().hex()
 
 
@@ -135,6 +141,7 @@ def gen(ctx):
     big = ctx.tier != "quick"
     hist = {}
     dochist = {}
+    typedhist = ctx.cov.setdefault("typed_generator_histogram", {})
     cases = {"S": [], "P": []}
     meta = {"S": [], "P": []}
 
@@ -202,7 +209,40 @@ def gen(ctx):
         t = g.value(0) if j % 5 == 0 else g.root()
         fl = "SP"[j % 2]
         add(fl, f"tval {fl} {sx(t)}", "tval-random")
+    # 6. typed targets from the type grammar: instances in several layouts, defects, perturbed types, single values
+    for fl, line, kind, exp in c13typed.gen_typed(rng, big, typedhist):
+        add(fl, line, kind, exp)
     return cases, meta, hist, dochist
+
+
+def tcheck_cases(ctx, texts):
+    """the permanent validation of the TySeed description of serde: the derived types of the harness and TySeed of the
+    same shape on the same documents (serialized values, their mutations, Config-shaped documents with and without
+    a defect, hand-written single values)"""
+    rng = ctx.rng
+    big = ctx.tier != "quick"
+    out = []
+    for ty, ts in sorted(texts.items()):
+        if ty not in c13typed.TARGET_TY:
+            continue          # (the root-enum family is not described in the type grammar's target list)
+        enc = c13typed.enc(c13typed.TARGET_TY[ty])
+        for j, t in enumerate(ts):
+            fl = "SP"[j % 2]
+            out.append((fl, f"tcheck {fl} {ty} {enc} {h(t)}", "tcheck-serialized-" + ty))
+            for _ in range(2 if big else 1):
+                out.append((fl, f"tcheck {fl} {ty} {enc} {h(docgen.mutate(rng, t))}", "tcheck-mutated-" + ty))
+    enc = c13typed.enc(c13typed.CONFIG)
+    for j in range(6000 if big else 300):
+        fl = "SP"[j % 2]
+        t = typed_doc(rng, defect=(j % 2 == 1))
+        out.append((fl, f"tcheck {fl} config {enc} {h(t.encode())}", "tcheck-config-document" + ("-defect" if j % 2 else "")))
+    for target, key in (("vmode", "mode"), ("vpt", "pt"), ("vowner", "owner")):
+        enc = c13typed.enc(c13typed.TARGET_TY[target])
+        for t in SVALS[key] + ["[1, 2, 3]", '{ Tuned = [1, "l"] }', '{ Tuned = [1, "l", 2] }', '{ Tuned = { level = 1, label = "l", x = 1 } }', '{ Pair = { 1 = "a", 0 = 1 } }',
+                               "{ Slow = [] }", "{ Slow = [1] }", '{ name = "n", dob = 1979-05-27, more = [1] }', "{ x = 1, y = 300000000000 }", '["n", 1979-05-27]', '["n"]']:
+            for fl in "SP":
+                out.append((fl, f"tcheck {fl} {target} {enc} {h(t.encode())}", "tcheck-single-" + target))
+    return out
 
 
 def source_dispatch():
@@ -261,6 +301,7 @@ def run(ctx):
     mods = ["TomlVerif.Props.C13", "driver"]
     lake_build(ctx, mods, {"TomlVerif.Props.C13": "property theorems"})
     audit(ctx, "TomlVerif.Props.C13", "TomlVerif/Props/C13.lean")
+    extra_props(ctx, ["C13Typed"])
     if ctx.tier == "thorough":
         leanchecker(ctx, "TomlVerif.Props.C13")
     bins = build_both(ctx)
@@ -296,6 +337,8 @@ def run(ctx):
     split_examples = {}
     all_ok = 0
     some_ok = 0
+    typed_total = {}
+    val_texts = {t: [] for t in TYPES}
 
     def bad(case, i, m, fl, oracle, routes, what):
         # cause class: the private key used as an ordinary key/string (one group per case kind), a date-time on the
@@ -310,6 +353,10 @@ def run(ctx):
         p = case.split(" ")
         if p[0] in ("doc", "sval"):
             text = unh(p[1]).decode(errors="replace")[:400]
+        elif p[0] in ("typed", "typedv"):
+            text = unh(p[3]).decode(errors="replace")[:400]
+        elif p[0] == "tcheck":
+            text = unh(p[4]).decode(errors="replace")[:400]
         bads.setdefault(sig, []).append((len(case), case, what, {"mode": "c13", "flavour": fl, "case": case, "text": text, "impl": i[:3000], "model": m[:3000], "witness": ("class:private-datetime-key-as-ordinary-key" if pk else case)}))
 
     for fl in "SP":
@@ -345,7 +392,33 @@ def run(ctx):
                         bad(c, i, m, fl, "generator-tree", [], f"the text routes decode to {f.get('c0', '')[:160]}, the generator intended {exp[:160]}")
                 if kind == "doc-corpus-valid" and p[2] in ("value", "table") and not all(f.get(r, "err") != "err" for r in TEXT_ROUTES):
                     bad(c, i, m, fl, "corpus-valid", [], "a valid corpus document is rejected by a text route")
+            elif p[0] in ("typed", "typedv") and i != "not-utf8":
+                routes = TYPED_ROUTES if p[0] == "typed" else TYPEDV_ROUTES
+                oks = [r for r in routes if f.get(r, "err") != "err"]
+                differ = [r for r in routes if f.get(r, "").startswith("ok:")]
+                typed_total[kind] = typed_total.get(kind, 0) + 1
+                if differ:
+                    names = "; ".join(f"{ROUTE_NAMES[r]} gives {f[r][3:][:120]}" for r in differ[:2])
+                    bad(c, i, m, fl, "routes-agree", differ, f"type {p[2][:120]}: routes succeed with different results: {ROUTE_NAMES[oks[0]]} gives {f['c0'][:120]} but {names}")
+                if oks:
+                    some_ok += 1
+                    nontriv.add(c)
+                    if len(oks) == len(routes):
+                        all_ok += 1
+                    else:
+                        key = (p[0], ",".join(r for r in routes if r not in oks))
+                        verdict_split[key] = verdict_split.get(key, 0) + 1
+                        if key not in split_examples or len(c) < len(split_examples[key]):
+                            split_examples[key] = c
+                if exp is not None:
+                    failing = [r for r in routes if r not in oks]
+                    if failing:
+                        bad(c, i, m, fl, "typed-instance-decodes", failing, f"type {p[2][:120]}: a document generated from the type is rejected by: " + ", ".join(ROUTE_NAMES[r] for r in failing))
+                    elif f.get("c0") != exp:
+                        bad(c, i, m, fl, "typed-instance-value", [], f"type {p[2][:120]}: the routes decode to {f.get('c0', '')[:160]}, the generator intended {exp[:160]}")
             elif p[0] == "val":
+                if "text" in f and p[1] in val_texts and len(val_texts[p[1]]) < (1500 if ctx.tier != "quick" else 60):
+                    val_texts[p[1]].append(unh(f["text"]))
                 if "ser" in f:
                     bad(c, i, m, fl, "serializes", [], f"a value of the derived family does not serialize: {f['ser']}")
                 else:
@@ -385,6 +458,42 @@ def run(ctx):
                 ndis += 1
                 if first is None or len(c) < len(first[0]):
                     first = (c, mm)
+    # second pass: the derived types of the harness against TySeed of the same shape (validates the description of serde
+    # the typed cases rest on), on the texts the `val` cases serialized
+    tc = tcheck_cases(ctx, val_texts)
+    tc_hist = {}
+    tc_bad = []
+    for fl in "SP":
+        sub = [x for x in tc if x[0] == fl]
+        impl, model = run_pair(ctx, bins[fl], "c13", [x[1] for x in sub])
+        for (_, c, kind), i, m in zip(sub, impl, model):
+            total += 1
+            tc_hist[kind] = tc_hist.get(kind, 0) + 1
+            f = fields(i)
+            if i.startswith("PANIC") or i == "CRASH":
+                bad(c, i, m, fl, "panic", [], f"panic: {i[:120]}")
+            elif i in ("flavour-mismatch", "bad-op", "bad-type", "bad-target"):
+                bad(c, i, m, fl, "harness", [], f"harness answered {i}")
+            elif i != "not-utf8":
+                if f.get("same") != "1":
+                    tc_bad.append((len(c), c, i))
+                routes = TYPEDV_ROUTES if c.split(" ")[2].startswith("v") else TYPED_ROUTES
+                differ = [r for r in routes if f.get(r, "").startswith("ok:")]
+                if differ:
+                    bad(c, i, m, fl, "routes-agree", differ, f"derived type {c.split(' ')[2]}: routes succeed with different results: {i[:200]}")
+                if any(f.get(r, "err") != "err" for r in routes):
+                    nontriv.add(c)
+            mm, nf = model_mismatch(i, m)
+            if nf:
+                compared += 1
+                model_fields += nf
+            if mm:
+                ndis += 1
+                if first is None or len(c) < len(first[0]):
+                    first = (c, mm)
+    tc_bad.sort()
+    ctx.oblige("TySeed (the dynamic target of the typed cases) behaves as the derived types of the harness: same verdict and same value on every route",
+               not tc_bad, f"{len(tc_bad)} cases differ; shortest: {tc_bad[0][1][:300]} -> {tc_bad[0][2][:600]}" if tc_bad else "")
     for sig, lst in sorted(bads.items(), key=lambda kv: str(kv[0])):
         lst.sort(key=lambda x: (x[0], x[1]))
         _, c, what, rep = lst[0]
@@ -397,16 +506,18 @@ def run(ctx):
             ctx.violation(f"obligation no longer checks: {n}", {"unchecked": n, "detail": d[:1500], "searched": f"{total} cases against route agreement, decode-of-serialized-text, try_from = parse-of-text"}, concrete=False)
     ctx.cov.update({
         "evaluations": total, "distinct_nontrivial": len(nontriv),
-        "rule": "doc: generated documents (with the generator's intended tree), corpus files, mutations, Config-shaped documents in many layouts with and without a defect, private-key documents, each into toml::Value / toml::Table / 5 derived types through 11 routes; sval: generated and hand-written single values into 12 targets through 6 routes; val: seeded values of 5 derived types (serialize, 11 routes back, try_from vs parse); tval: toml::Value trees (exhaustive 2-key tables over 10 entry kinds, random trees) through Value::try_from, try_into::<Value>, Table::try_from and the text route, both map flavours. non-trivial = a doc/sval case of more than 8 bytes on which at least one route succeeds, or a val/tval case",
+        "rule": "doc: generated documents (with the generator's intended tree), corpus files, mutations, Config-shaped documents in many layouts with and without a defect, private-key documents, each into toml::Value / toml::Table / 5 derived types through 11 routes; sval: generated and hand-written single values into 12 targets through 6 routes; val: seeded values of 5 derived types (serialize, 11 routes back, try_from vs parse); tval: toml::Value trees (exhaustive 2-key tables over 10 entry kinds, random trees) through Value::try_from, try_into::<Value>, Table::try_from and the text route, both map flavours; typed / typedv: random target types of the type grammar (depth <= 3: scalars of every width, Option, Vec, tuples, BTreeMap, newtype structs, structs with Option / #[serde(default)] fields, enums with unit / newtype / tuple / struct variants, Datetime / Date / Time, toml::Value, IgnoredAny) driven by the dynamic target TySeed through 6 document routes / 4 single-value routes: instances generated FROM the type in inline / header / dotted / array-of-tables layouts (with the intended decoded value), structural defects of such instances, the same documents against a perturbed type, arbitrary values, fixed witnesses of every verdict difference between the two deserializer families; tcheck: the derived types of the harness and TySeed of the same shape side by side. non-trivial = a doc/sval case of more than 8 bytes on which at least one route succeeds, a val/tval case, or a typed / typedv / tcheck case on which at least one route succeeds",
         "samples": [cases["S"][0], cases["S"][3][:160], cases["P"][-1][:160]],
         "input_histogram": dict(sorted(hist.items())),
         "document_generator_histogram": dict(sorted(dochist.items())[:40]),
         "cases_with_a_successful_route": some_ok, "cases_where_every_route_succeeds": all_ok,
         "routes_failing_while_others_succeed": {f"{k[0]}:{k[1]}": {"count": v, "example": split_examples[k][:200]} for k, v in sorted(verdict_split.items(), key=lambda kv: -kv[1])[:12]},
         "violation_signatures": len(bads),
+        "typed_cases": dict(sorted(typed_total.items())), "tcheck_cases": dict(sorted(tc_hist.items())), "tcheck_disagreements": len(tc_bad),
         "traces_validated_against_impl": compared, "model_fields_compared": model_fields, "disagreements": ndis,
-        "model_compared_fields": "doc / sval cases with target value or table: every route's verdict and canonical result (the model parses the text with the document model, presents it as toml_edit does, runs Value's / Map's visitor, and for the four Value routes presents the tree again as `impl Deserializer for toml::Value` does); tval cases: canon, tf, ti, tt and (trees without floats) text. Typed targets and val cases are implementation-vs-oracle only (the model answers n/a)",
-        "oracles": ["every two routes that succeed return equal results", "on to_string(v) every route succeeds and returns v", "Value::try_from(v) and Table::try_from(v) equal from_str::<Value>(to_string(v))",
+        "model_compared_fields": "doc / sval cases with target value or table: every route's verdict and canonical result (the model parses the text with the document model, presents it as toml_edit does, runs Value's / Map's visitor, and for the four Value routes presents the tree again as `impl Deserializer for toml::Value` does); tval cases: canon, tf, ti, tt and (trees without floats) text. The six derived targets of `doc` / `sval` and the val cases are implementation-vs-oracle only (the model answers n/a); typed / typedv / tcheck cases: every route's verdict and decoded value (Model/DeTyped.lean: decodeEdit on the parsed tree for the text routes, decodeValue on the toml::Value / toml::Table the text decodes to for the other two)",
+        "oracles": ["every two routes that succeed return equal results", "a document generated from a type of the grammar decodes on every route to the value the generator intended",
+                    "TySeed and the derived type of the same shape give the same verdict and value on every route", "on to_string(v) every route succeeds and returns v", "Value::try_from(v) and Table::try_from(v) equal from_str::<Value>(to_string(v))",
                     "Value::try_from(v).try_into() returns v", "for a toml::Value tree: try_from, try_into::<Value> and the text route are the identity", "generated documents decode to the generator's intended tree"],
     })
     ctx.assumptions.append("routes are compared on their results; a route that fails where another succeeds is counted (routes_failing_while_others_succeed) but, per the property text ('whenever they succeed'), only reported when the text was obtained by serializing a value of the target type")
